@@ -234,7 +234,12 @@ let handle (x : Sexp.t) : string =
                    | Some (_, _, _, false) -> note "names:lost:input"
                    | Some (k, a, b, true) ->
                        let sym = List.nth s1.i_inputs k in
-                       if List.mem sym roots then note "names:inputs:referenced-by-label"
+                       (* an input that carries the name of an output referring to it directly (a state without init/next that the
+                          output line named): the writer cannot put the name on the declaration without renaming the output, and the
+                          reader keeps the default name of an input that is also an output on purpose (regression tests of the
+                          repository: parse_sha3_keccak_and_check_that_all_anonymous_inputs_are_there) *)
+                       if List.exists (fun (n, e) -> e = sym && big_ocamlstr n = a) s1.i_outputs then note "names:inputs:same-name-as-output"
+                       else if List.mem sym roots then note "names:inputs:referenced-by-label"
                        else if String.contains a '$' then note "names:inputs:dollar-cleanup"
                        else if drift a b then note "names:inputs:suffix-drift" else note "names:inputs:other"
                    | None -> ());
